@@ -734,7 +734,7 @@ def dict_campaign(run: Run, states: list, quick: bool) -> None:
         if key in seen:
             continue
         seen.add(key)
-        for variant, name in concretise(st['name'], 'dict', full=not quick)[:3]:
+        for variant, name in concretise(st['name'], 'dict', full=not quick)[:2]:
             dw = DictWorld()
             try:
                 for slot in SLOTS:
@@ -867,6 +867,8 @@ def maildir_campaign(run: Run, store: Store, states: list, rng, quick: bool,
         variants = concretise(st['name'], layout, full=full)
         if quick and not interesting:
             variants = variants[:1]
+        elif any(str(x) == 'NUL' for x in st['name']) and not interesting:
+            variants = variants[:2]       # the path never reaches the kernel
         for slot in SLOTS:
             vs = variants if slot in PATH_SLOTS else variants[:1]
             if quick and not interesting and slot not in PATH_SLOTS and len(st['name']) > 1 \
